@@ -51,6 +51,33 @@ CASES = [
     ('accumulate-itemgetter', 'import operator\nr = numpy.maximum.accumulate(x).tolist() + list(numpy.minimum.accumulate([a, b, a])) + list(operator.itemgetter(0, -1)(x)) + [operator.itemgetter(0)(x)]',
      dict(x='list1', a='real', b='real')),
     ('abs-tolerance', 'r = tol + abs(a) * rel', dict(a='real', tol='real', rel='real')),
+    # ---- n-d arrays of concrete shape (collapse detectors, bounded, discrete)
+    ('axis-reductions', 'm = numpy.array([[a, b], [c, d], [e, a]])\nr = numpy.ptp(m, axis=0).tolist() + m.max(axis=0).tolist() + m.min(axis=1).tolist() + '
+     '[float(numpy.ptp(m)), float(m.max()), float(numpy.sum(m)), m.size, m.ndim] + numpy.sum(m, axis=0).tolist() + m.sum(axis=-1).tolist()', dict(a='real', b='real', c='real', d='real', e='real')),
+    ('where-2d', 'm = numpy.array([[a, b], [c, d]])\nw = numpy.where(m > e)\nr = w[0].tolist() + [-1] + w[1].tolist() + [-1] + '
+     'list(numpy.where(numpy.array([a, b, c]) <= d)[-1])', dict(a='real', b='real', c='real', d='real', e='real')),
+    ('reshape-and-shape-assignment', 'm = numpy.array([a, b, c, d, e, a])\nn = m.reshape(-1, 2)\nt = numpy.asarray(b)\nt.shape = (-1, 1)\nm.shape = (2, 3)\n'
+     'r = n.ravel().tolist() + m[1].tolist() + list(n.shape) + list(m.shape) + t.ravel().tolist() + list(t.shape) + [m.size, n.ndim] + m.T[0].tolist()', dict(a='real', b='real', c='real', d='real', e='real')),
+    ('triu-outer-fancy', 'idx = numpy.triu_indices(3, k=1)\nz = numpy.subtract.outer(numpy.array([a, b, c]), numpy.array([a, b, c]))[idx]\n'
+     'r = z.tolist() + [int(v) for pr in zip(*idx) for v in pr] + numpy.array([a, b, c, d])[[3, 0]].tolist() + numpy.array([[a, b], [c, d]])[:, [1]].ravel().tolist()', dict(a='real', b='real', c='real', d='real', e='real')),
+    ('count-cumsum-split', 'k = numpy.cumsum((numpy.array([[a, b], [c, d]]) > e).sum(axis=-1))\nps = numpy.split(numpy.array([a, b, c, d]), [1, 3])\n'
+     'r = k.tolist() + [len(p) for p in ps] + ps[1].tolist()', dict(a='real', b='real', c='real', d='real', e='real')),
+    ('mask-2d-selection', 'P = numpy.array([[[0, 1], [0, 2]], [[1, 1], [1, 2]]])\nM = numpy.array([[a, b], [c, d]]) <= e\nsel = P[M]\n'
+     'r = [len(sel)] + [int(v) for row in sel for v in row] + numpy.array([[a, b], [c, d]])[numpy.array([a, c]) <= e].ravel().tolist()', dict(a='real', b='real', c='real', d='real', e='real')),
+    ('argmin-argmax', 'm = numpy.array([[a, b, c], [d, e, a]])\nr = m.argmin(axis=1).tolist() + m.argmax(axis=0).tolist() + [int(numpy.argmin(m)), int(abs(m - b).argmin(axis=1)[0])]', dict(a='real', b='real', c='real', d='real', e='real')),
+    ('none-to-nan-to-inf', "q = numpy.asarray([(None, a), (b, None)], dtype='float64').T\nq[0][numpy.isnan(q[0])] = -numpy.inf\nq[1][numpy.isnan(q[1])] = numpy.inf\n"
+     'r = [q[0][1], q[1][0], bool(q[0][0] < -1e300), bool(q[1][1] > 1e300), bool(numpy.isnan(a))]', dict(a='real', b='real')),
+    ('intersect-choose-astype-bool', 'at = numpy.intersect1d(numpy.array([0, 2, 3]), (2, 0, 5))\n'
+     'bs = numpy.sum([(numpy.array([a, b, c]) <= d), (numpy.array([a, b, c]) >= e)], axis=0).astype(bool)\n'
+     'r = at.tolist() + numpy.choose(numpy.array([2, 0, 1]), [[a, b, c], [c, d, e], [e, a, b]]).tolist() + bs.tolist() + (bs == False).tolist()', dict(a='real', b='real', c='real', d='real', e='real')),
+    ('flat-sort-broadcast-shape', 'z = numpy.empty((2, 2))\nz.flat = [a, b, c, d]\ns_ = numpy.asarray([c, a, b])\ns_.sort()\n'
+     'bb = numpy.broadcast(numpy.atleast_1d(a), numpy.atleast_1d([b, c]))\n'
+     'r = z.ravel().tolist() + s_.tolist() + list(bb.shape) + [len(numpy.shape(a))] + list(numpy.shape([a, b])) + numpy.atleast_1d(e).tolist()', dict(a='real', b='real', c='real', d='real', e='real')),
+    ('set-operators-map', 'u = {1, 2, 3} - {2}\nv = {1} | {4}\nw = {1, 2} & {2, 3}\nr = sorted(u) + sorted(v) + sorted(w) + list(map(abs, [a, b])) + '
+     '[v_ for t_ in map(tuple, map(reversed, [(1, 2), (3, 4)])) for v_ in t_] + [(1, 2) in zip((1, 3), (2, 4)), (2, 1) in zip((1, 3), (2, 4))]', dict(a='real', b='real')),
+    ('columns-to-3d-max', 'X = numpy.array([[a, b, c, d], [e, a, b, c]])\nW = X[:, [0, 2, 3, 1]]\nW.shape = (2, 2, -1)\n'
+     'r = numpy.array(W.tolist()).max(axis=0).ravel().tolist() + W[1].ravel().tolist() + list(W.shape)', dict(a='real', b='real', c='real', d='real', e='real')),
+    ('symbolic-int-array-index', 'S = numpy.array([-1.0, 0.0, 2.0])\ncnt = numpy.sum(a > S)\nlo = max(0, cnt - 1)\nr = S[numpy.array([lo, lo])].tolist() + [int(cnt)]', dict(a='real')),
 ]
 
 
